@@ -544,10 +544,7 @@ class BasePort(logging_utils.LoggableMixin, metaclass=abc.ABCMeta):
             return
 
         # Cancel sequence
-        if self._sequence:
-            self.debug('canceling current sequence')
-            await self._sequence.cancel()
-            self._sequence = None
+        await self._cancel_sequence()
 
         self.debug('disabling')
         self._enabled = False
@@ -601,10 +598,7 @@ class BasePort(logging_utils.LoggableMixin, metaclass=abc.ABCMeta):
             self.error('refusing to set expression on non-writable port')
             raise PortError('Cannot set expression on non-writable port')
 
-        if self._sequence:
-            self.debug('canceling current sequence')
-            await self._sequence.cancel()
-            self._sequence = None
+        await self._cancel_sequence()
 
         if not sexpression:
             self._expression = None
@@ -901,18 +895,24 @@ class BasePort(logging_utils.LoggableMixin, metaclass=abc.ABCMeta):
             return float(value)
 
     async def set_sequence(self, values: list[PortValue], delays: list[int], repeat: int) -> None:
-        if self._sequence:
-            self.debug('canceling current sequence')
-            await self._sequence.cancel()
-            self._sequence = None
+        await self._cancel_sequence()
 
-        if values:
+        # The port may have been disabled or given an expression while the previous sequence was being cancelled
+        if values and self._enabled and not self._expression:
             self._sequence = core_sequences.Sequence(
                 values, delays, repeat, self._transform_and_write_value_fire_and_forget, self._on_sequence_finish
             )
 
             self.debug('installing sequence')
             self._sequence.start()
+
+    async def _cancel_sequence(self) -> None:
+        # Another request may be served while we wait for the playback task to end: detach the sequence before waiting and go
+        # on until none is left, so that a sequence is never dropped (and left playing) without having been cancelled
+        while self._sequence:
+            sequence, self._sequence = self._sequence, None
+            self.debug('canceling current sequence')
+            await sequence.cancel()
 
     def _transform_and_write_value_fire_and_forget(self, value: NullablePortValue) -> None:
         asyncio_utils.fire_and_forget(self.transform_and_write_value(value))
